@@ -58,7 +58,7 @@ Definition q_run (name : string) (peek_zero : bool) : option (list qact * option
   match DecideLang.exec 30 (q_env peek_zero) (method_code name) [] with
   | Returned st v => Some (map (fun kv => act_lookup act_table (fst kv) (snd kv)) (rev st), Some v)
   | Running st => Some (map (fun kv => act_lookup act_table (fst kv) (snd kv)) (rev st), None)
-  | Stuck | Cont _ => None
+  | Stuck | Cont _ | Brk _ => None
   end.
 
 (* ---- what the model's transitions stand for ---- *)
